@@ -318,6 +318,20 @@ theorem queue_exactly_once (init : DQ α) (ops : List (QOp α)) (h0 : init.start
 
 /-! ### Copy and binomial partition -/
 
+/-- **re-basing the clock keeps the queue's contents in place**: `set_current_time` (which every delay simulation calls
+on the queue it is handed, so also on a queue carried over from an earlier run) changes the time base only — every
+pending entry stays in the logical slot it was in, and the earliest slot is still the one delivered next. -/
+theorem setCurrentTime_keeps_contents (q : DQ α) (t : α) (j r : Nat) :
+    (q.setCurrentTime t).pending j r = q.pending j r ∧ (q.setCurrentTime t).start = q.start
+      ∧ (q.setCurrentTime t).nextReactions = q.nextReactions ∧ (q.setCurrentTime t).next = t + q.dt :=
+  ⟨rfl, rfl, rfl, rfl⟩
+
+/-- … and a re-base to the time the queue is already at is the identity. -/
+theorem setCurrentTime_same (q : DQ α) : q.setCurrentTime (q.next - q.dt) = q := by
+  unfold DQ.setCurrentTime
+  have : q.next - q.dt + q.dt = q.next := by ring
+  rw [this]
+
 theorem copy_preserves (q : DQ α) : q.copy = q := rfl
 
 /-- whatever the random stream, the two parts of a binomial partition add up, cell by cell, to the
